@@ -222,7 +222,7 @@ func (g *progGen) trim() (string, string) {
 func (g *progGen) node(depth int) string {
 	g.nodes++
 	kinds := []string{"text", "text", "var", "var", "var", "if", "for", "with", "set", "macro", "include", "cycle", "ifchanged", "ifequal", "firstof",
-		"filter", "autoescape", "spaceless", "comment", "verbatim", "templatetag", "widthratio", "lorem", "now", "tick", "import", "ssi", "block"}
+		"filter", "autoescape", "spaceless", "comment", "verbatim", "templatetag", "widthratio", "lorem", "now", "tick", "import", "ssi", "block", "masked", "recycle"}
 	k := pick(g.t, "kind", kinds)
 	if g.o.ticks && g.chance(4, "moretick") {
 		k = "tick"
@@ -233,6 +233,19 @@ func (g *progGen) node(depth int) string {
 	o, c := g.trim()
 	switch k {
 	case "text":
+		return g.text()
+	case "masked":
+		// nondeterministic constructs whose output is masked by a deterministic observation,
+		// so that deterministic programs still run that code
+		return pick(g.t, "masked", []string{"{% filter wordcount %}{% lorem 4 w random %}{% endfilter %}", "{{ words|random|length_is:99 }}", "{{ nums|random|divisibleby:1 }}",
+			"{% filter length_is:0 %}{% now \"2006\" %}{% endfilter %}", "{% if items|random %}r{% endif %}", "{% filter wordcount %}{% lorem 7 w random %}{% endfilter %}", "{% lorem 3 w %}", "{% lorem 2 b %}"})
+	case "recycle":
+		// advance a named cycle defined earlier
+		for _, v := range g.scope {
+			if strings.HasPrefix(v, "cy") && g.o.stateful && !excluded("tag:cycle") {
+				return "{% cycle " + v + " %}"
+			}
+		}
 		return g.text()
 	case "tick":
 		if g.o.ticks {
@@ -313,7 +326,17 @@ func (g *progGen) node(depth int) string {
 		if g.chance(2, "arg2") {
 			call += ", " + g.atom()
 		}
-		call += ") }}"
+		call += ")"
+		if g.chance(3, "callfilter") {
+			// a macro result is markup; what a filter mixes into it is not
+			call += "|" + pick(g.t, "cf", []string{"add:name", "add:html", "default:name", "cut:name", "center:20|add:title", "upper"})
+		}
+		call += " }}"
+		if g.chance(4, "setcall") {
+			g.n++
+			v := fmt.Sprintf("mr%d", g.n)
+			call += "{% set " + v + " = " + m + "(" + g.atom() + ") %}{{ " + v + "|add:name }}{{ " + v + " }}"
+		}
 		return def + call
 	case "include":
 		if !g.o.includes {
@@ -488,7 +511,7 @@ func genProgramWith(t *rapid.T, o progOpts, extraNames []string) *Program {
 	if o.inherit && drawInt(t, 0, 3, "inh") == 0 {
 		// whitespace next to the block tags, so that TrimBlocks / LStripBlocks matter in the parent too
 		g.files["/base.tpl"] = "BASE[\n  {% block content %}\n\nbase-content{% endblock %}\n\n|\t{% block side %}\n {{ name }}{% endblock %}\n]" + g.text()
-		over := "{% block content %}" + root + "{% if flag %}{{ block.Super }}{% endif %}{% endblock %}"
+		over := "{% block content %}" + root + "{% if flag %}{{ block.Super }}{% else %}{{ block.Super|add:name }}{% endif %}{% endblock %}"
 		// blocks generated inside root are nested in 'content': fine (fresh names)
 		root = `{% extends "/base.tpl" %}` + over
 	}
